@@ -225,6 +225,8 @@ package zerolog
 //@   flag assumepost base64.StdEncoding.Encode writes exactly EncodedLen(len(cbor)) alphabet bytes over the placeholder dots, so the result is the quoted data URL (trusted library step)
 //@   requires valueok(dst)
 //@   ensures emitsvalue(res, dst)
+//@   loop 1:
+//@     invariant 0 <= i && len(dst) == len(dst0) + 30 + i
 
 // ---------------------------------------------------------------------------
 // event.go / array.go: structured members
